@@ -20,6 +20,7 @@ EXPLANATION = (
     "the error (a handler that can catch NegativeCycle must re-raise). That every semantically negative loop reaches one of these sites, and that "
     "no stratified program does, is a semantic statement about the engine and is not decided."
     " Added after seed round 6: N4 also requires that the list handed to notify_cycle is the complete, never re-bound result of engine.find_cycle."
+    " Added after seed round 8: N10 EvalNot.complete hands its parent not(or(all proofs))."
 )
 TECHNIQUE = "static analysis: CFG must-pass-through rules over the cycle-detection call chain"
 LEVEL_TEXT = EXPLANATION
